@@ -335,7 +335,7 @@ def wl_plan_coefs(p):
     # densities over ten orders of magnitude: exponents across the interpolation range, incl.
     # values whose coefficients underflow to subnormals (arguments always come from the
     # package's own, range-checked, get_interpolation_arguments)
-    rho2 = _rho_data(nprng, nrho, max(n, 40))
+    rho2 = _rho_data(nprng, nrho, max(n, 400))
     fac = 10.0 ** nprng.uniform(-7.0, 2.0, rho2.shape[1])
     rho2[0] *= fac
     rho2[1:4] *= fac ** (4.0 / 3)
